@@ -11,7 +11,7 @@ tie   : (1) stream precise   — PrecisionModel(scale).getScale()/makePrecise() 
             NO_TOPO = pointwise image, default/KEEP_COLLAPSED line handling predicted exactly.
 A `bad ...` verdict on (3) *is* a concrete failing input of C04; disagreements on (1)/(2) are model/implementation
 mismatches of the CORE functions: the exact layer (proved) then decides whether the property's own sentence fails."""
-import os, json, glob, struct
+import os, json, glob, struct, math
 import verif, gtok
 from verif import log
 
@@ -90,8 +90,38 @@ def leaf_kinds(line):
     return c
 
 
-def signature(op, flags, a, b, verdict):
+def half_cell_input(ghex, a, b):
+    """does some input ordinate lie (within 2^-30 of a cell) on a cell boundary k + 1/2 of the grid, as the library sees it
+    (val * scale in binary64 with scale = 1.0 / gridSize)?  Such ordinates are the ties of makePrecise; with a scale that is
+    not exactly representable the product is 0.49999999999999994-like and rounding / hot-pixel tests can disagree."""
+    g = abs(_dec(ghex))
+    if not g > 0:
+        return False
+    scale = 1.0 / g
+    gs = 1.0 / scale
+    if abs(gs - round(gs)) < 1e-5:
+        gs = float(round(gs))
+    for line in (a, b):
+        if line == "-":
+            continue
+        for t in line.split():
+            if len(t) == 16:
+                try:
+                    x = _dec(t)
+                except Exception:
+                    continue
+                for v in (x * scale, x / gs):       # HotPixel multiplies by the scale, makePrecise divides by the grid size when it is > 1
+                    if v != v or abs(v) > 2.0 ** 52:
+                        continue
+                    f = v - math.floor(v)
+                    if abs(f - 0.5) < 2.0 ** -30:
+                        return True
+    return False
+
+
+def signature(op, flags, a, b, verdict, ghex=None):
     """Structural key of a failing case, used to match KNOWN_FINDINGS.json.
+    halfCellInput : (failure classes of the operations) an input ordinate sits on a rounding tie k + 1/2 of the grid
     class : which clause of the contract fails (exception | offgrid | invalid-result | ring-check | far-sample |
             stray-vertex | pointwise | line-reduce | crash)
     op    : I U D S UU SP<flags>
@@ -100,6 +130,11 @@ def signature(op, flags, a, b, verdict):
             (UnaryUnionOp::unionWithNull merges with the floating Geometry::Union instead of the union strategy)"""
     cls = verdict_class(verdict)
     sig = {"class": cls, "op": op if op != "SP" else "SP%s" % flags}
+    if cls in ("exception", "invalid-result", "ring-check", "far-sample", "stray-vertex", "crash"):
+        sig["halfCellInput"] = half_cell_input(ghex, a, b) if ghex else False
+        if sig["halfCellInput"]:
+            del sig["op"]            # one family whatever the operation: snap rounding of inputs sitting on rounding ties
+            return sig
     if op == "UU":
         k = leaf_kinds(a)
         mixed = sum(1 for x in k if x > 0) > 1
@@ -109,7 +144,7 @@ def signature(op, flags, a, b, verdict):
 
 def shrink(exe, op, flags, ghex, a, b, verdict):
     cls0 = verdict_class(verdict)
-    sig0 = signature(op, flags, a, b, verdict)
+    sig0 = signature(op, flags, a, b, verdict, ghex)
     best = (a, b, verdict)
     progress, rounds = True, 0
     while progress and rounds < 8:
@@ -122,7 +157,7 @@ def shrink(exe, op, flags, ghex, a, b, verdict):
             for cand in gtok.shrink_candidates(cur):
                 na, nb = (cand, best[1]) if which == 0 else (best[0], cand)
                 v, _ = evaluate(exe, op, flags, ghex, na, nb)
-                if v and verdict_class(v) == cls0 and v.startswith(("bad", "crash")) and signature(op, flags, na, nb, v) == sig0:
+                if v and verdict_class(v) == cls0 and v.startswith(("bad", "crash")) and signature(op, flags, na, nb, v, ghex) == sig0:
                     best = (na, nb, v)
                     progress = True
                     break
@@ -247,7 +282,7 @@ def run(ctx):
         if crashed:
             found_input = True
             hdr, a, b, v = crashed
-            sig = signature(hdr[1], hdr[2], a, b, v)
+            sig = signature(hdr[1], hdr[2], a, b, v, hdr[3])
             d = describe(hdr[1], hdr[2], hdr[3], a, b)
             d.update({"kind": "failing-input", "stream": "prec-ops", "result": v, "signature": sig})
             ctx.violation("precision operation crashes on valid input (%s)" % v, d, signature=sig)
@@ -267,14 +302,14 @@ def run(ctx):
                 seen.append("driver")
                 ctx.violation("driver could not judge a prec-ops case: " + got, {"kind": "tie-broken", "correspondence": "prec-ops", "case": case[:2000], "driver": got}, nofail=True)
             continue
-        sig0 = signature(op, flags, a, b, got)
+        sig0 = signature(op, flags, a, b, got, ghex)
         if sig0 in seen:
             continue
         seen.append(sig0)
         if shrunk < 10:
             a, b, got = shrink(exe, op, flags, ghex, a, b, got)
             shrunk += 1
-        sig = signature(op, flags, a, b, got)
+        sig = signature(op, flags, a, b, got, ghex)
         if sig != sig0 and sig in seen:
             continue
         seen.append(sig)
